@@ -4,6 +4,7 @@ import Mc.Drv.SyncHandle
 import Mc.Drv.HookCalls
 import Mc.Drv.Rounds
 import Mc.Drv.Events
+import Mc.Drv.Informer
 open Mc Mc.Drv
 
 def dispatch (c : J) : Res :=
@@ -14,6 +15,7 @@ def dispatch (c : J) : Res :=
   | "hookcalls" => handleHookCalls c
   | "rounds" => handleRounds c
   | "event" => handleEvent c
+  | "informer" => handleInformer c
   | k => { agree := false, where_ := s!"unknown kind {k}" }
 
 partial def loop (h : IO.FS.Stream) (out : IO.FS.Stream) : IO Unit := do
